@@ -109,6 +109,9 @@ def check(model, opts, feeds_list):
         else:
             f = exec_text(text)
         new = f.to_model_proto()
+    except _HarnessLimit:
+        info["outcomes"] = ["harness_cannot_call_make_model"]
+        return [], info
     except Exception as e:  # noqa: BLE001
         return [(f"text_not_executable:{type(e).__name__}:{_msg_class(str(e))}", f"{type(e).__name__}: {str(e)[:300]}\n{text[:1500]}")], info
     bi, bo = sig_types(model)
@@ -156,6 +159,10 @@ def check(model, opts, feeds_list):
     return verdicts, info
 
 
+class _HarnessLimit(Exception):
+    """The harness cannot drive this generated text (not a verdict about the exporter)."""
+
+
 def _msg_class(msg):
     import re
 
@@ -174,7 +181,7 @@ def _match_inits(text, inits):
     params = [p.strip().split(":")[0].strip() for p in m.group(1).split(",") if p.strip()] if m else []
     vals = list(inits.values())
     if len(params) != len(vals):
-        raise TypeError(f"make_model takes {params}, model has initializers {list(inits)}")
+        raise _HarnessLimit(f"make_model takes {params}, model has initializers {list(inits)}")
     return dict(zip(params, vals))
 
 
@@ -316,6 +323,7 @@ REGIONS = {
     "inline_const_drops_still_referenced_definition": lambda c: bool(c["opts"].get("inline_const")),
     "inline_const_empty_list": lambda c: bool(c["opts"].get("inline_const")) and _empty_1d_const(c),
     "if_with_unused_outputs": _dead_if,
-    "while_style_loop": lambda c: any(n.op_type == "Loop" and (len(n.input) == 0 or n.input[0] == "") for n in _nodes(_m(c).graph)),
+    "loop_nested_in_if_branch": lambda c: any(n.op_type == "If" and any(x.op_type == "Loop" for a in n.attribute if a.type == onnx.AttributeProto.GRAPH for x in _nodes(a.g))
+                                              for n in _nodes(_m(c).graph)),
     "loop_with_condition_break_first": lambda c: any(n.op_type == "Loop" for n in _nodes(_m(c).graph)),
 }
